@@ -15,11 +15,11 @@
 use nom::{
     branch::alt,
     bytes::complete::{tag, tag_no_case},
-    character::complete::{char, i32, i64, multispace0, u64},
+    character::complete::{char, i32, multispace0},
     combinator::{cond, map, map_res, opt, value},
     error::{Error as NomError, ErrorKind},
     multi::{many0, separated_list1},
-    number::complete::double,
+    number::complete::recognize_float,
     sequence::{delimited, pair, preceded, separated_pair, terminated, tuple},
     IResult,
 };
@@ -344,11 +344,29 @@ fn path_value(input: &[u8]) -> IResult<&[u8], PathValue<'_>> {
         value(PathValue::Null, tag("null")),
         value(PathValue::Boolean(true), tag("true")),
         value(PathValue::Boolean(false), tag("false")),
-        map(u64, |v| PathValue::Number(Number::UInt64(v))),
-        map(i64, |v| PathValue::Number(Number::Int64(v))),
-        map(double, |v| PathValue::Number(Number::Float64(v))),
+        map(number, PathValue::Number),
         map(string, PathValue::String),
     ))(input)
+}
+
+// A number literal: the whole literal is recognized first, so that fractions and
+// exponents are not cut off after their integer prefix. Integers that fit keep their
+// exact value as u64 or i64, every other literal is a double.
+fn number(input: &[u8]) -> IResult<&[u8], Number> {
+    let (rest, text) = recognize_float(input)?;
+    let num = std::str::from_utf8(text).ok().and_then(|s| {
+        if let Ok(v) = s.parse::<u64>() {
+            Some(Number::UInt64(v))
+        } else if let Ok(v) = s.parse::<i64>() {
+            Some(Number::Int64(v))
+        } else {
+            s.parse::<f64>().ok().map(Number::Float64)
+        }
+    });
+    match num {
+        Some(num) => Ok((rest, num)),
+        None => Err(nom::Err::Error(NomError::new(input, ErrorKind::Float))),
+    }
 }
 
 fn inner_expr(input: &[u8], root_predicate: bool) -> IResult<&[u8], Expr<'_>> {
